@@ -126,6 +126,10 @@ def hyp_run(strategy, body: Callable[[Any], None], max_examples: int, seed_int: 
     import hypothesis
     from hypothesis import HealthCheck, Phase, given, settings
 
+    class _BudgetExpired(BaseException):
+        """leaves the Hypothesis run at once (not an Exception, so it is not a test failure): generating the remaining
+        examples only to skip them cost more than the budget itself for the large program generators"""
+
     @hypothesis.seed(seed_int)
     @settings(max_examples=max_examples, phases=[Phase.generate], database=None, deadline=None,
               derandomize=False, report_multiple_bugs=False,
@@ -133,10 +137,13 @@ def hyp_run(strategy, body: Callable[[Any], None], max_examples: int, seed_int: 
     @given(strategy)
     def _t(x):
         if col is not None and col.expired():
-            return
+            raise _BudgetExpired()
         body(x)
 
-    _t()
+    try:
+        _t()
+    except _BudgetExpired:
+        pass
 
 
 def shard_seed(seed: int, shard: int) -> int:
